@@ -4,7 +4,7 @@ import os
 import subprocess
 from facts import VERIF, REPO, FactsError
 
-PESTFACTS = os.path.join(VERIF, "pestfacts", "target", "release", "pestfacts")
+PESTFACTS = os.environ.get("LR_PESTFACTS") or os.path.join(VERIF, "pestfacts", "target", "release", "pestfacts")
 GRAMMAR_REL = "crates/core/src/parser/grammar.pest"
 
 BUILTIN_CHARSETS = {
